@@ -38,7 +38,13 @@ RULE = ("scenario = generated ROM (prologue, main loop, interrupt handler, subro
         "bundle k1, runs on (gap 0 .. most of the run) and is saved again at k2, a fresh machine loads that "
         "second-generation bundle (and so on for k3); the first bundle is written by the model itself or by the "
         "other implementation; reference = the machine that was saved, running on; distinct = (model, scenario, "
-        "origin, chain prefix).")
+        "origin, chain prefix). Round 5, what the program DOES is a generated dimension: profile call-flow "
+        "builds a call graph (DAG, depth <= 4) of routines spread over the four 64 KiB ROM pages, entered by "
+        "near CALL or CALLF, bodies = work items + calls of further routines + JPF continuations into another "
+        "page, ending in the matching RET/RETF directly or through a shared tail in any page; every near-CALL "
+        "return offset has a JPF pad in the other pages so the program is defined whichever page RET resumes "
+        "in; called from the main loop and from the interrupt handler; every step index inside the graph is a "
+        "snapshot point (labels pt:in-call-graph, pt:flow:<chunk kind>, pt:nested-call, pt:pc-in-other-page).")
 
 MODELS = ("py", "rs")
 
@@ -265,8 +271,24 @@ def _sanitize(msg: str) -> str:
     return re.sub(r"[0-9]+", "N", re.sub(r"0x[0-9a-fA-F]+", "H", msg))[:70]
 
 
-def point_labels(model: str, obs: Dict[str, Any], diag: Dict[str, Any], obs_init: Dict[str, Any]) -> List[str]:
+def point_labels(model: str, obs: Dict[str, Any], diag: Dict[str, Any], obs_init: Dict[str, Any],
+                 scen: Optional[Dict[str, Any]] = None) -> List[str]:
     labs: List[str] = []
+    if scen is not None and scen.get("flow"):
+        # control-flow skeleton: where in the generated call graph the snapshot point lies
+        fk = S.flow_kind(scen, int(obs["regs"]["PC"]))
+        if fk is not None:
+            labs.append("pt:in-call-graph")
+            labs.append("pt:flow:" + fk)
+            try:
+                frames = diag.get("interrupt_stack")
+                depth = int(diag.get("call_depth")) - (len(frames) if isinstance(frames, list) else 0)
+                if depth >= 2:
+                    labs.append("pt:nested-call")
+            except Exception:
+                pass
+            if (int(obs["regs"]["PC"]) & 0xF0000) != (S.MAIN & 0xF0000):
+                labs.append("pt:pc-in-other-page")
     if obs["power"] != "running":
         labs.append("pt:" + obs["power"])
     if diag.get("in_interrupt"):
@@ -399,7 +421,7 @@ def judge_model(model: str, scen: Dict[str, Any], points: List[int], cont: int, 
     for k in points:
         b = res["B"][k]
         dg = res["diags"].get(k, {})
-        labs = point_labels(model, A[k], dg, A[0])
+        labs = point_labels(model, A[k], dg, A[0], scen)
         nt = bool(labs) and continuation_depends(A, k, cont)
         labels = [f"model:{model}", f"profile:{scen.get('profile')}"] + labs
         if not labs:
@@ -505,7 +527,7 @@ def check_chains(model: str, scen: Dict[str, Any], chains: List[Dict[str, Any]],
                 rep.case(None, labels + ["save-error"])
                 break
             R = link["R"]
-            labs = point_labels(model, R[0], link["ref_diag"], obs_init)
+            labs = point_labels(model, R[0], link["ref_diag"], obs_init, scen)
             if _lcd_of(R[0]) != prev_lcd:
                 labels.append("chain:lcd-changed-since-load")
             prev_lcd = _lcd_of(R[0])
@@ -712,7 +734,7 @@ def check_case(case: Dict[str, Any], rep: Report) -> None:
     scen = case
     n, cont = int(scen["n"]), int(scen["k"])
     points = list(case.get("points") or range(0, n + 1))
-    base_case = {key: scen[key] for key in ("rom", "cfg", "events", "n", "k", "profile", "index", "listing")
+    base_case = {key: scen[key] for key in ("rom", "cfg", "events", "n", "k", "profile", "index", "listing", "flow")
                  if key in scen}
     prefix = os.path.join(_scratch_dir(), f"s{scen.get('index', 0)}-")
     try:
@@ -774,7 +796,7 @@ def _shard(task: Tuple[int, int, int, str, int, int, int, int]) -> Report:
 def run(ctx: Ctx) -> Report:
     rsclient.build()
     S.selftest()
-    nscen = ctx.pick(75, 195)
+    nscen = ctx.pick(85, 221)  # 17 profile slots x 5 / x 13
     n = ctx.pick(40, 64)
     cont = ctx.pick(40, 40)
     nshards = 16 if ctx.quick else 64
